@@ -101,6 +101,16 @@ def run(ctx):
                  (('seq', [('req', ('int',))]), ('rec', [('i', 5)])), (('seq', [('req', ('int',)), ('req', ('int',))]), ('rec', [('i', 1), ('i', 2)])),
                  (('seqof', ('seq', [])), ('list', [('rec', []), ('rec', [])])), (('exp', (128, 0, 3), ('seqof', ('null',))), ('list', []))]:
         cases.append(codec.Case(T, v))
+    # wide records: 11..14 members of pairwise different types (schemaless field names field-10, field-11, .. come after field-1 in text order)
+    wide = [(('int',), ('i', 3)), (('octs',), ('o', b'ab')), (('bool',), ('b', True)), (('null',), ('null',)), (('oid',), ('oid', (1, 2, 3))),
+            (('bits',), ('bits', (1, 0, 1))), (('str', 'UTF8String'), ('chars', 'u')), (('str', 'IA5String'), ('chars', 'i')), (('enum',), ('i', 1)),
+            (('str', 'NumericString'), ('chars', '12')), (('seqof', ('int',)), ('list', [('i', 9), ('i', 8)])), (('exp', (128, 0, 0), ('int',)), ('i', 4)),
+            (('str', 'PrintableString'), ('chars', 'p')), (('exp', (64, 0, 1), ('octs',)), ('o', b'z'))]
+    for kind in ('seq', 'set'):
+        for n in (10, 11, 12, 14):
+            for rot in (0, 5):
+                ms = (wide[rot:] + wide[:rot])[:n]
+                cases.append(codec.Case((kind, [('req', t) for t, _ in ms]), ('rec', [v for _, v in ms])))
     # systematic: every kind under every EXPLICIT tagging shape; every ordered pair of differently tagged SET members
     every = 6 if ctx.tier == 'quick' else 1
     cases += [c for c in codec.tag_grid_cases(ctx) if no_implicit(c.T) and homogeneous(c.T)]
